@@ -21,6 +21,9 @@ not enumerated -- these are the conditions under which enumeration is unnecessar
 
 Round 4: (R10-no-waiting-on-other-writers) no lock file / OS lock / wait loop in the cache
 update; (R10-removes-only-its-own) only its own temporary and the published module's bytecode are removed.
+
+Round 6: the temporary name carries process id and thread id read at write time (or a name of
+its own); publication after close, by os.replace and not by a copying primitive.
 """
 import ast
 
